@@ -182,7 +182,8 @@ def run(ctx):
         evs, hv, nsys = one_run(ctx, name, script)
         total_sys += nsys
         if name == "enomem":
-            nfail = sum(1 for e in hv if e["ev"] == "new" and e["result"] == "err")
+            # a panic instead of an error is a violation (judged below), but it is a forced failure all the same
+            nfail = sum(1 for e in hv if e["ev"] == "new" and e["result"] in ("err", "panic"))
             ctx.notes.append(f"RLIMIT_AS run: {nfail} of {sum(1 for e in hv if e['ev'] == 'new')} buffer creations failed with a mapping error")
             if nfail == 0:
                 raise vlib.ToolError("RLIMIT_AS did not force any mapping failure")
